@@ -51,6 +51,8 @@ def cast(value: typing.Any) -> 'dsl.Feature':
     if not isinstance(value, Feature):
         LOGGER.debug('Converting value of %s to a literal type', value)
         value = Literal(value)
+    elif isinstance(value, Comparison.Pythonic):  # materialize the lazy ==/< proxy
+        value = value.operable
     return value
 
 
